@@ -380,8 +380,49 @@ func vC04ExtraIssuerAudiences(t *testing.T, out *vEmitter) {
 	}
 }
 
+// vC04ExpiryAfterStart: "has not expired" is judged by the clock at the time of the REQUEST: a token issued after the
+// proxy (and its verifiers) were built, accepted while it is valid, is refused once its exp has passed - for the
+// provider's own issuer and for an extra JWT issuer.
+func vC04ExpiryAfterStart(t *testing.T, out *vEmitter) {
+	e := vNewEnv(t, vEnvCfg{oidc: true, extraJWT: true, mod: func(o *options.Options) {
+		o.SkipJwtBearerTokens = true
+		o.Providers[0].OIDCConfig.InsecureSkipNonce = true
+	}})
+	time.Sleep(1100 * time.Millisecond) // the tokens below are issued, and expire, strictly after the verifiers were built
+	exp := time.Now().Add(2 * time.Second).Unix()
+	toks := map[string]string{
+		"own-issuer":   vJWT(vKeyRSA, "RS256", vClaims("user@example.com", map[string]interface{}{"exp": exp})),
+		"extra-issuer": vJWT(vKeyRSA, "RS256", vClaims2("user@example.com", map[string]interface{}{"exp": exp})),
+	}
+	ask := func(raw string) int {
+		req, err := vRawRequest(vBuildRaw("GET", "/oauth2/auth", "app.example.com", [][2]string{{"Authorization", "Bearer " + raw}}, ""))
+		if err != nil {
+			return 0
+		}
+		return e.serve(req).Status
+	}
+	before := map[string]int{}
+	for k, raw := range toks {
+		before[k] = ask(raw)
+	}
+	time.Sleep(time.Until(time.Unix(exp, 0).Add(1200 * time.Millisecond)))
+	for k, raw := range toks {
+		after := ask(raw)
+		out.Obs("expiry-after-start", true, vL(vS(k), vI(int64(before[k])), vI(int64(after))))
+		out.Stat("expiry_after_start_tokens", 1)
+		if before[k] != 202 {
+			out.Violation("control/no-bearer-token-accepted", "a valid short-lived bearer token was not accepted before its expiry: the check below checks nothing", map[string]interface{}{"issuer": k, "status": before[k]})
+		}
+		if after == 202 {
+			out.Violation("oidc/session-from-unverified-token", "a bearer token was accepted after its exp had passed (it was issued after the proxy started)",
+				map[string]interface{}{"issuer": k, "seconds_past_exp": time.Now().Unix() - exp, "status_before_expiry": before[k], "status_after_expiry": after})
+		}
+	}
+}
+
 func driveC04(t *testing.T, out *vEmitter) {
 	vKeys()
+	defer vC04ExpiryAfterStart(t, out)
 	defer vC04BearerSequence(t, out)
 	defer vC04ExtraIssuerAudiences(t, out)
 	cfgs := []vOCfg{
